@@ -205,6 +205,38 @@ def settings_numbers_not_narrowed(ctx):
     ctx.ok("settings-number-not-narrowed:scan", "E-TYPE narrowing", "-", "%d optional-integer constructions, %d narrowing sites examined" % (n_opt, n_cast))
 
 
+def config_text_is_converted_whole(ctx):
+    """'Every value has a valid reading in its argument's type' - of the WHOLE text: a converter in the configuration scope does not
+    cut the text at the first occurrence of a character (`str.substr(0, str.find('%'))`) and convert the head: whatever follows the
+    first occurrence - "20%x", "20%5", "20% 80" - is then never looked at and a malformed value is accepted as its leading number.
+    Cutting a known suffix off by length (`substr(0, size() - 1)` after testing the last character) is the accepted idiom."""
+    P = ctx.prog
+    n = 0
+    scope_ = set(config_scope(ctx))
+    for u in list(scope_):
+        scope_ |= {l.usr for l in P.lambdas_in(P.fns[u])}
+    for u in sorted(scope_):
+        f = P.fns[u]
+        if not f.file.startswith("oomd/"):
+            continue
+        X = None
+        for i in f.calls("substr"):
+            nd = f.nodes[i]
+            a = nd.get("args", [])
+            if not (nd.get("callee") or "").startswith("std::") or len(a) != 2 or const_int(f, a[0]) != 0:
+                continue
+            n += 1
+            X = X or Expander(P, f)
+            t = X(a[1])
+            ctx.use(f)
+            ctx.check(re.search(r"\.(find|find_first_of|find_first_not_of|rfind|find_last_of)\(", t) is None, "config-text-converted-whole:%s@%d" % (short(f), nd.get("line", 0)),
+                      "value-shape (cut position)", f.loc(i), "a converter cuts its text by length only",
+                      "%s converts the head of the text up to the first match (%s): what follows the match is never examined, so a value with "
+                      "trailing garbage after it is accepted as its leading number instead of being refused" % (f.pq, f.text(i)[:90]))
+    ctx.counters["config_text_head_cuts"] = n
+    ctx.ok("config-text-converted-whole:scan", "value-shape (cut position)", "-", "%d substr(0, n) calls in the configuration scope examined" % n)
+
+
 def failed_part_refuses_the_whole(ctx, tag):
     """'Rejected cleanly or honoured exactly': in the compile functions (Config2::compile, compileDropIn and the compile* helpers of the
     config layer they reach) a part that failed to compile - a ruleset, detector group, plugin, prekill hook - makes the function fail:
@@ -244,6 +276,7 @@ def failed_part_refuses_the_whole(ctx, tag):
 
 
 def run(ctx):
+    config_text_is_converted_whole(ctx)
     from .C11 import instance_action_args
     instance_action_args(ctx)      # an instance's action is initialised with the arguments the configuration gives it
     failed_part_refuses_the_whole(ctx, "C12")
